@@ -307,7 +307,7 @@ func (runInfo *runInfoStruct) runLetMapItemStmt(stmt *ast.LetMapItemStmt) {
 	if isNil(runInfo.rv) {
 		rvs = []reflect.Value{nilValue, falseValue}
 	} else {
-		rvs = []reflect.Value{runInfo.rv, trueValue}
+		rvs = []reflect.Value{copyOfElement(runInfo.rv), trueValue}
 	}
 	var i int
 	for i, runInfo.expr = range stmt.LHSS {
@@ -739,7 +739,7 @@ func (runInfo *runInfoStruct) runSwitchStmt(stmt *ast.SwitchStmt) {
 		runInfo.env = env
 		return
 	}
-	value := runInfo.rv
+	value := copyOfElement(runInfo.rv)
 
 	for _, switchCaseStmt := range stmt.Cases {
 		caseStmt := switchCaseStmt.(*ast.SwitchCaseStmt)
@@ -866,7 +866,7 @@ func (runInfo *runInfoStruct) runDeleteStmt(stmt *ast.DeleteStmt) {
 	if runInfo.err != nil {
 		return
 	}
-	item := runInfo.rv
+	item := copyOfElement(runInfo.rv)
 
 	if stmt.Key != nil {
 		runInfo.expr = stmt.Key
